@@ -1275,6 +1275,11 @@ class TransformSet:
             to_instrument=captures,
             set_conformer=self.set_conformer,
         )
+        # This function object is only a carrier for the code that gets
+        # swapped into the real function: it must not count as a candidate
+        # when resolving a /module/function reference while the real
+        # function runs that same code.
+        transformed.__ptera_discard__ = True
         return self._register(captures, transformed)
 
 
